@@ -28,7 +28,7 @@
 //   est  SYS ENV starts <n> (<reals>)*n GOAL cell=<bits> k=<n> att=<n> bias=<bits> seed=<n> iters=<n>   -> result + `estplay …`
 //   kpiece SYS ENV starts <n> (<reals>)*n GOAL cell=<bits> nclose=<n> bias=<bits> seed=<n> iters=<n>   -> result + `kpieceplay …`
 //   pdst SYS ENV starts <n> (<reals>)*n GOAL k=<n> bias=<bits> seed=<n> iters=<n> [resume=<n> clearsol=<0|1>]   -> result(s) + `pdstplay …`
-//   hist <planner> SYS ENV starts <n> (<reals>)*n GOAL k=<n> bias=<bits> seed=<n> ops (solve <budget> | clear)*
+//   hist <planner> SYS ENV starts <n> (<reals>)*n GOAL k=<n> bias=<bits> seed=<n> ops (solve <budget> | clear | clearsol)*
 //   plan <planner> SYS ENV starts <n> (<reals>)*n GOAL k=<n> steer=<0|1> bias=<bits> seed=<n> budget=<n>
 //
 // doubles are decimal u64 bit patterns.  The three systems are written here once (SysPropagator) and
@@ -332,6 +332,41 @@ private:
     std::vector<double> g_;
 };
 
+// a goal region with an extra condition: satisfied only if ALSO the speed (double integrator: |(vx,vy)|) is small, while the
+// reported distance is the position distance alone — a non-satisfying state can be closer than a satisfying one
+class PosVGoal : public ob::GoalRegion
+{
+public:
+    PosVGoal(const ob::SpaceInformationPtr &si, std::vector<double> g, double thr) : ob::GoalRegion(si), g_(std::move(g))
+    {
+        setThreshold(thr);
+    }
+    double distanceGoal(const ob::State *st) const override
+    {
+        std::vector<double> r;
+        si_->getStateSpace()->copyToReals(r, st);
+        const double dx = r[0] - g_[0], dy = r[1] - g_[1];
+        return sqrt(dx * dx + dy * dy);
+    }
+    bool isSatisfied(const ob::State *st) const override
+    {
+        return isSatisfied(st, nullptr);
+    }
+    bool isSatisfied(const ob::State *st, double *distance) const override
+    {
+        std::vector<double> r;
+        si_->getStateSpace()->copyToReals(r, st);
+        const double d = distanceGoal(st);
+        if (distance != nullptr)
+            *distance = d;
+        const double speed = r.size() >= 4 ? sqrt(r[2] * r[2] + r[3] * r[3]) : 0.0;
+        return d < threshold_ && speed < 0.75;
+    }
+
+private:
+    std::vector<double> g_;
+};
+
 static ob::GoalPtr makeGoal(const std::string &kind, const ob::SpaceInformationPtr &si, const std::vector<double> &g, double thr,
                             Events *ev)
 {
@@ -339,6 +374,8 @@ static ob::GoalPtr makeGoal(const std::string &kind, const ob::SpaceInformationP
         return std::make_shared<PosGoal>(si, g, thr, ev);
     if (kind == "pred")
         return std::make_shared<PredGoal>(si, g, thr);
+    if (kind == "posv")
+        return std::make_shared<PosVGoal>(si, g, thr);
     return std::make_shared<L1Goal>(si, g, thr);
 }
 
@@ -996,7 +1033,7 @@ struct Problem
         for (unsigned j = 0; j < ns; ++j)
             starts.push_back(needReals(t, i, sys.nreals()));
         expect(t, i, "goal");
-        if (i >= t.size() || (t[i] != "pos" && t[i] != "pred" && t[i] != "l1"))
+        if (i >= t.size() || (t[i] != "pos" && t[i] != "pred" && t[i] != "l1" && t[i] != "posv"))
             throw vp::ParseError("goal kind");
         goalKind = t[i++];
         goal = needReals(t, i, sys.nreals());
@@ -1785,6 +1822,11 @@ static std::string opHist(const Toks &t)
             ops.push_back(-1);
             ++i;
         }
+        else if (t[i] == "clearsol")   // the caller clears only the problem definition's solution paths
+        {
+            ops.push_back(-2);
+            ++i;
+        }
         else if (t[i] == "solve")
         {
             ++i;
@@ -1822,6 +1864,11 @@ static std::string opHist(const Toks &t)
     std::string out;
     for (long op : ops)
     {
+        if (op == -2)
+        {
+            pdef->clearSolutionPaths();
+            continue;
+        }
         if (op < 0)
         {
             planner->clear();
